@@ -183,7 +183,10 @@ class FitHistMachine(Machine):
                 elif r < 0.78:
                     ops.append(["unlimit", nm])
                 elif r < 0.9:
-                    ops.append(["fix", [nm, None if rng.random() < 0.5 else fitlib.gen_point(rng, spec)[pi]]])
+                    fv = None if rng.random() < 0.5 else fitlib.gen_point(rng, spec)[pi]
+                    if fv is not None and int(round(abs(fv) * 1e4)) % 6 == 0 and spec["type"] in ("xy", "indexed"):
+                        fv = 0.0  # a parameter fixed at exactly zero (a falsy value; decided without a further draw: the other histories stay as they were)
+                    ops.append(["fix", [nm, fv]])
                 else:
                     ops.append(["release", nm])
             elif k == "do_fit" and n_fit < (2 if tier == "quick" else 3):
